@@ -39,6 +39,8 @@ type Profile struct {
 	NoLoopDecl     bool // no `$` declaration directly in a while body
 	OptShapes      bool // bias towards shapes the optimizer rewrites (x*0, x+0, copies, constant branches)
 	FreeVars       bool // declare fv0:int fv1:bool fv2:str as untyped-at-runtime inputs (C03/C15)
+	RareIndexSet bool // `a[i] = v` / `$ o.f = v` statements are rare (the compiler has no case for them: the whole module falls back to the interpreter)
+	Moods      bool // draw a per-case mood: clean (well-typed program, well-formed requests), mild, or the profile's full fault rate
 	Exclude    map[string]bool
 }
 
@@ -85,6 +87,9 @@ type G struct {
 	inFunc   string
 	noDeclAt int // block nesting level at which `$` declarations are not generated (0: nowhere)
 	fnLocalPrefix string
+	ill      int // effective ill-typed percentage of this case (profile value scaled by the mood)
+	mood     int // 0 full, 1 mild, 2 clean
+	routeRet string
 }
 
 // rapid's integer generators are deliberately biased towards small values, which
@@ -285,7 +290,7 @@ func objFields(lit *Node) map[string]string {
 
 // expr generates an expression that (statically) has type ty.
 func (g *G) expr(ty string, d int) *Node {
-	if g.p.IllTyped > 0 && d < g.p.MaxDepth && g.pct("ill", g.p.IllTyped) {
+	if g.ill > 0 && d < g.p.MaxDepth && g.pct("ill", g.ill) {
 		g.event("ill-typed-operand")
 		ty = g.otherType(ty)
 	}
@@ -427,6 +432,10 @@ func (g *G) intExpr(d int) *Node {
 		}
 		l := g.expr("int", d-1)
 		r := g.expr("int", d-1)
+		if (op == "/" || op == "%") && g.calm() {
+			// a divisor that cannot be zero (negative ones included: sign of quotient and remainder)
+			r = Int([]int64{1, 2, 3, 5, 7, -1, -2, -3, 10, 4}[g.n("calmdiv", 10)])
+		}
 		if (op == "/" || op == "%") && !g.pct("divzero", 8) {
 			// steer away from a literal zero divisor most of the time
 			if r.K == "int" && r.I == 0 {
@@ -459,6 +468,9 @@ func (g *G) intExpr(d int) *Node {
 				}
 			case 5:
 				if !g.p.VMOnly {
+					if g.calm() {
+						return Call("parseInt", g.pick2("pic", Str("42"), Str("-17"), Str("0"), Call("toString", g.expr("int", d-1))))
+					}
 					return Call("parseInt", g.pick2("pi", Str("42"), Str(" -17 "), Str("x9"), Call("toString", g.expr("int", d-1))))
 				}
 			}
@@ -466,6 +478,9 @@ func (g *G) intExpr(d int) *Node {
 	case 7:
 		if g.p.Arrays && !g.p.TotalOnly {
 			if vs := g.visible("[int]", false); len(vs) > 0 {
+				if g.calm() {
+					return N("index", Var(g.pick("av", vs)), Int(int64(g.n("cidx", 8)/7)))
+				}
 				return N("index", Var(g.pick("av", vs)), Int(int64(g.n("idx", 4))))
 			}
 		}
@@ -479,6 +494,18 @@ func (g *G) intExpr(d int) *Node {
 		}
 	}
 	return Bin(g.pick("iop2", []string{"+", "-", "*"}), g.expr("int", d-1), g.expr("int", d-1))
+}
+
+// calm: in a clean (mostly, in a mild) case, operations that fail on some values are given
+// operands on which they cannot fail, so that the program runs on.
+func (g *G) calm() bool {
+	switch g.mood {
+	case 2:
+		return g.pct("calm", 90)
+	case 1:
+		return g.pct("calm", 50)
+	}
+	return false
 }
 
 func (g *G) pick2(label string, xs ...*Node) *Node { return xs[g.n(label, len(xs))] }
@@ -519,10 +546,18 @@ func (g *G) strExpr(d int) *Node {
 		return Call("replace", g.expr("str", d-1), Str(g.pick("rpat", []string{"a", "b", "l", "x,", " "})), Str(g.pick("rrep", []string{"", "-", "ab", "a"})))
 	case 3:
 		if !g.p.TotalOnly {
+			if g.calm() {
+				// indices that are in range whatever the string is
+				a := int64(g.n("css", 3))
+				return Call("substring", Bin("+", g.expr("str", d-1), Str("hello")), Int(a), Int(a+int64(g.n("cse", 4))))
+			}
 			return Call("substring", g.expr("str", d-1), Int(int64(g.n("ss", 3))), Int(int64(g.n("se", 6))))
 		}
 	case 4:
 		if !g.p.VMOnly {
+			if g.calm() {
+				return Call("charAt", Bin("+", g.expr("str", d-1), Str("wxyz")), Int(int64(g.n("cci", 4))))
+			}
 			return Call("charAt", g.expr("str", d-1), Int(int64(g.n("ci", 4))))
 		}
 	case 5:
@@ -638,7 +673,7 @@ func (g *G) callFunc(f *finfo, d int) *Node {
 		n--
 		g.event("default-parameter-used")
 	}
-	if g.p.IllTyped > 0 && g.pct("arity", g.p.IllTyped/2) {
+	if g.ill > 0 && g.pct("arity", g.ill/2) {
 		g.event("wrong-arity-call")
 		if n > 0 && g.n("ad", 2) == 0 {
 			n--
@@ -651,6 +686,18 @@ func (g *G) callFunc(f *finfo, d int) *Node {
 	}
 	g.event("user-function-call")
 	return c
+}
+
+// binder names a pattern variable. Compiled match arms have no scope of their own (known
+// finding c02.match-binding-visible-after-match): while that is listed, every binder gets a
+// name of its own, so that a nested arm cannot overwrite the binding of an enclosing one.
+func (g *G) binder(base string) string {
+	if !g.p.NoPatternLeak {
+		return base
+	}
+	g.uniq++
+	g.diverted["c02.match-binding-visible-after-match"]++
+	return fmt.Sprintf("%s%d", base, g.uniq)
 }
 
 func (g *G) matchExpr(ty string, d int) *Node {
@@ -667,7 +714,7 @@ func (g *G) matchExpr(ty string, d int) *Node {
 			guardAt = g.n("mgpos", n+1)
 		}
 		guardArm := func() {
-			name := "mv"
+			name := g.binder("mv")
 			// a pattern variable may shadow a variable of the enclosing scope: a rejected arm must leave that variable alone
 			if outer := g.visible("int", false); !g.p.NoPatternLeak && len(outer) > 0 && g.pct("mshadow", 45) {
 				name = outer[g.n("mshadowname", len(outer))]
@@ -698,8 +745,9 @@ func (g *G) matchExpr(ty string, d int) *Node {
 		m.C = append(m.C, N("mcase", N("plit", Str(g.pick("ps", strPool[:6]))), none, g.expr(ty, d-1)))
 		m.C = append(m.C, N("mcase", N("plit", Str(g.pick("ps2", strPool[:6]))), none, g.expr(ty, d-1)))
 		g.push()
-		g.scopes[len(g.scopes)-1]["ms"] = &vinfo{ty: "str", ro: true, pat: true}
-		m.C = append(m.C, N("mcase", NS("pvar", "ms"), none, g.expr(ty, d-1)))
+		ms := g.binder("ms")
+		g.scopes[len(g.scopes)-1][ms] = &vinfo{ty: "str", ro: true, pat: true}
+		m.C = append(m.C, N("mcase", NS("pvar", ms), none, g.expr(ty, d-1)))
 		g.pop()
 	case 2: // array destructuring
 		if !g.p.Arrays || g.p.NoArrPattern {
@@ -758,7 +806,24 @@ func (g *G) declStmt() *Node {
 			if g.loop > 0 && (v.ty == "str" || v.ty == "[int]") {
 				return NS("decl", n, g.growSafe(v.ty))
 			}
-			return NS("decl", n, g.expr(v.ty, g.p.MaxDepth-1))
+			val := g.expr(v.ty, g.p.MaxDepth-1)
+			if v.ty == "obj" && g.p.Exclude["c02.missing-field-null-vs-error"] {
+				// the variable may now hold another object: only fields both have stay readable
+				g.diverted["c02.missing-field-null-vs-error"]++
+				var nf map[string]string
+				switch {
+				case val.K == "obj":
+					nf = objFields(val)
+				case val.K == "var" && g.lookup(val.S) != nil:
+					nf = g.lookup(val.S).fields
+				}
+				for f, ft := range v.fields {
+					if nf[f] != ft {
+						delete(v.fields, f)
+					}
+				}
+			}
+			return NS("decl", n, val)
 		}
 	case r < 24 && len(g.dead) > 0:
 		n := g.pick("dead", g.dead)
@@ -768,7 +833,7 @@ func (g *G) declStmt() *Node {
 			g.declare(n, g.infoFor(ty, val))
 			return NS("decl", n, val)
 		}
-	case r < 24+g.p.IllTyped/2:
+	case r >= 24 && r < 24+(g.ill+1)/2:
 		names := make([]string, 0, len(cur))
 		for n := range cur {
 			if g.p.NoRebindInputs && (n == "input" || n == "query" || n == "headers") {
@@ -853,6 +918,9 @@ func (g *G) retType() string {
 			}
 		}
 	}
+	if g.routeRet != "" && g.routeRet != "any" && g.calm() {
+		return g.routeRet
+	}
 	return g.someType()
 }
 
@@ -901,7 +969,7 @@ func (g *G) stmt() *Node {
 			}
 			return NS("reassign", n, g.expr(v.ty, g.p.MaxDepth))
 		}
-		if g.pct("undeclared", g.p.IllTyped) {
+		if g.pct("undeclared", g.ill) {
 			g.event("assign-undeclared")
 			return NS("reassign", "nope", g.expr("int", 1))
 		}
@@ -915,6 +983,9 @@ func (g *G) stmt() *Node {
 	case k < 76 && canNest && g.p.Switch:
 		return g.switchStmt()
 	case k < 81 && g.p.Mutation:
+		if g.p.RareIndexSet && !g.pct("ris", 15) {
+			return g.declStmt()
+		}
 		return g.mutateStmt()
 	case k < 85 && g.p.Guards && g.inFunc == "":
 		g.event("guard")
@@ -931,7 +1002,7 @@ func (g *G) stmt() *Node {
 		return N("continue")
 	case k < 98:
 		// use of a name after its block ended: must be "undefined variable"
-		if len(g.dead) > 0 && g.pct("useDead", g.p.IllTyped*2) {
+		if len(g.dead) > 0 && g.pct("useDead", g.ill*2) {
 			n := g.pick("deadu", g.dead)
 			if g.lookup(n) == nil && !g.isFunc(n) {
 				g.event("use-after-block-exit")
@@ -1273,6 +1344,11 @@ func (g *G) genRoute(idx int) (Route, []Request) {
 	}
 	body := Block()
 	g.nest++
+	g.routeRet = ""
+	if g.mood > 0 && g.pct("rretc", 20) {
+		// declared up front: the returns of a clean case then produce that type
+		g.routeRet = g.pick("rrtc", []string{"int", "str", "bool", "any"})
+	}
 	n := 1 + g.n("rst", g.p.MaxStmts)
 	for i := 0; i < n; i++ {
 		if s := g.stmt(); s != nil {
@@ -1287,10 +1363,14 @@ func (g *G) genRoute(idx int) (Route, []Request) {
 	}
 	// a return type on some routes
 	last := body.C[len(body.C)-1]
-	if last.I == 0 && g.pct("rret", 15) {
+	if last.I == 0 && g.routeRet != "" {
+		r.Ret = g.routeRet
+		g.event("route-return-type")
+	} else if last.I == 0 && g.mood == 0 && g.pct("rret", 15) {
 		r.Ret = g.pick("rrt", []string{"int", "str", "bool", "any"})
 		g.event("route-return-type")
 	}
+	g.routeRet = ""
 	g.nest--
 	r.Body = body
 
@@ -1307,6 +1387,12 @@ func (g *G) genRoute(idx int) (Route, []Request) {
 		}
 		for _, q := range r.Query {
 			mode := g.n("qm", 10)
+			if g.mood == 2 || (g.mood == 1 && mode >= 8 && g.pct("qmm", 70)) {
+				// clean requests: a valid value, or nothing where the declaration allows that
+				if mode >= 8 || (mode >= 6 && q.Required) {
+					mode = 0
+				}
+			}
 			switch {
 			case mode < 6:
 				rq.Query = append(rq.Query, [2]string{q.Name, g.queryVal(q.Type, true)})
@@ -1321,7 +1407,7 @@ func (g *G) genRoute(idx int) (Route, []Request) {
 		if g.pct("uq", 20) {
 			rq.Query = append(rq.Query, [2]string{"extra", g.pick("uqv", []string{"5", "x", "2.5", "true"})})
 		}
-		if hasBody && g.pct("sendbody", 85) {
+		if hasBody && (g.mood == 2 || g.pct("sendbody", 85)) {
 			b := map[string]interface{}{"s": g.pick("bs", strPool[:8]), "b": g.n("bb", 2) == 1, "f": []float64{1.5, 2, 0.25, 10}[g.n("bf", 4)]}
 			js, _ := json.Marshal(b)
 			rq.Body = js
@@ -1361,8 +1447,22 @@ func genStyle(g *G, l string) Style {
 
 // GenCase draws a whole program with requests.
 func GenCase(rt *rapid.T, p Profile) Case {
-	g := &G{rt: rt, p: p, events: map[string]bool{}, diverted: map[string]int{}}
+	g := &G{rt: rt, p: p, events: map[string]bool{}, diverted: map[string]int{}, ill: p.IllTyped}
 	var c Case
+	if p.Moods {
+		// Without this nearly every program contains some fault and three quarters of the
+		// requests end in an error before much of the body has run; the value oracle needs
+		// programs that run to completion.
+		switch m := g.n("mood", 10); {
+		case m < 3:
+		case m < 5:
+			g.mood, g.ill = 1, p.IllTyped/3
+			g.event("mood:mild")
+		default:
+			g.mood, g.ill = 2, 0
+			g.event("mood:clean")
+		}
+	}
 	if p.Funcs {
 		nf := g.n("nf", 4)
 		for i := 0; i < nf; i++ {
